@@ -1357,3 +1357,34 @@ def _witness_erf(ctx):
 
 WITNESSES = {"C02:GaussianDiscrete:midpoint-nonprivate": _witness_midpoint,
              "C02:GaussianAnalytic:erf-cancellation": _witness_erf}
+
+
+# live-object witnesses: construct -> randomise -> assign a smaller epsilon -> the old calibration is still used
+_STALE = {
+    "LaplaceBoundedNoise": {"epsilon": 1.0, "delta": 0.1, "sensitivity": 1.0},
+    "LaplaceBoundedDomain": {"epsilon": 1.0, "delta": 0.0, "sensitivity": 1.0, "lower": 0.0, "upper": 10.0},
+    "Gaussian": {"epsilon": 1.0, "delta": 1e-3, "sensitivity": 1.0},
+    "GaussianAnalytic": {"epsilon": 1.0, "delta": 1e-3, "sensitivity": 1.0},
+    "GaussianDiscrete": {"epsilon": 1.0, "delta": 1e-3, "sensitivity": 1},
+    # not failing on HEAD (regression witnesses: these recompute their calibration on every call)
+    "Laplace": {"epsilon": 1.0, "delta": 0.0, "sensitivity": 1.0},
+    "LaplaceTruncated": {"epsilon": 1.0, "delta": 0.0, "sensitivity": 1.0, "lower": 0.0, "upper": 1.0},
+    "LaplaceFolded": {"epsilon": 1.0, "delta": 0.0, "sensitivity": 1.0, "lower": 0.0, "upper": 1.0},
+    "Uniform": {"delta": 0.25, "sensitivity": 1.0},
+    "Staircase": {"epsilon": 1.0, "sensitivity": 1.0, "gamma": 0.5},
+}
+
+
+def _witness_stale(mech):
+    def w(ctx):
+        from ..core import Ctx
+        c = Ctx(PROPERTY, "quick", 0)
+        p1 = dict(_STALE[mech])
+        asg = {"delta": 0.025} if mech == "Uniform" else {"epsilon": 0.1}
+        res = live_case(c, mech, p1, asg, 12345, ["randomise"], 67890)
+        hits = [v for v in c.violations if v["signature"] == f"C02:{mech}:stale-calibration"]
+        return bool(hits), (hits[0]["what"][:600] if hits else f"{mech}: live calibration after assignment = fresh ({res})")
+    return w
+
+
+WITNESSES.update({f"C02:{m}:stale-calibration": _witness_stale(m) for m in _STALE})
